@@ -15,7 +15,7 @@ META = {
             "stated rule (decided by C01/C02 for the parser, guarded by a dominating check, tracing metadata), matches a reviewed entry, or is "
             "reported; Q2 the side tables of InferenceResult are read with get(), never indexed; Q3 every cycle of the salsa query graph "
             "consists of queries that have cycle recovery; Q5 recursion that follows user-written references (type aliases) carries a "
-            "visited-set guard. One obligation per site / query / recursive function. Verifier-style. Q7/Q8 = C11 H6/H7 (equality of query values). Q12 = C02 P2 (no parser loop stands still: the progress guard is reachable through deep nesting only). Q11 = C09 Y6 (complete inference groups: part of the cut of the infer cycle). Q10 every cycle of the query graph has a cut that keeps it from happening (recovery does not survive memo validation). Q9 no path through a recursive function descends twice into the same child of its input (linear, not 2^depth, work: the 11 queries answer on deeply nested annotations). Q14 an expression is inferred once: the per-expression worker of the inferencer runs only behind a failed look-up in the table of assigned types, the entry is made before the descent, and nothing else fills that table (40 levels of `1 |> g(1 |> g(..))` never answered). Q15 a type variable is not unified with a variable of its own class (`let b = #(a, a)` x 40 never answered).",
+            "visited-set guard. One obligation per site / query / recursive function. Verifier-style. Q7/Q8 = C11 H6/H7 (equality of query values). Q12 = C02 P2 (no parser loop stands still: the progress guard is reachable through deep nesting only). Q11 = C09 Y6 (complete inference groups: part of the cut of the infer cycle). Q10 every cycle of the query graph has a cut that keeps it from happening (recovery does not survive memo validation). Q9 no path through a recursive function descends twice into the same child of its input (linear, not 2^depth, work: the 11 queries answer on deeply nested annotations). Q14 an expression is inferred once: the per-expression worker of the inferencer runs only behind a failed look-up in the table of assigned types, the entry is made before the descent, and nothing else fills that table (40 levels of `1 |> g(1 |> g(..))` never answered). Q15 a type variable is not unified with a variable of its own class (`let b = #(a, a)` x 40 never answered). Q16 the recursive walk that writes a type out asks a budget (depth and size) before every descent.",
     "explanation": "Engine G lists every unwrap/expect/index/asserting-API call, MIR arithmetic or bounds assert and explicit panic that "
                    "the 11 queries can reach and demands a justification for each; the salsa query graph is rebuilt from the generated "
                    "QueryFunction::execute bodies and checked for cycles without recovery (a cycle panics in every query touching it). "
@@ -200,6 +200,8 @@ def run(F, res, tier):
     every_file_has_a_tree_of_its_own(F, res)
     inference_is_memoised(F, res)
     same_class_is_a_no_op(F, res)
+    display_is_budgeted(F, res)
+    recursion_follows_nesting_not_length(F, res)
     from rules import c09 as _c09
     _c09.groups_scan_every_body(F, res, rule="Q11")
 
@@ -348,6 +350,193 @@ def same_class_is_a_no_op(F, res, rule="Q15"):
     res.ob(rule, "unify/same-class", "the content of one variable's class is unified with another variable only after their representatives were compared and "
            "found different", nsites > 0 and not bad, where="crates/ide/src/ty/infer.rs",
            how="%d site(s), each behind find(a) != find(b)" % nsites if nsites and not bad else ("no site found" if not nsites else "not guarded: %s" % bad))
+
+
+def display_is_budgeted(F, res, rule="Q16"):
+    """Q16: a type is written out within a budget. The frozen types of a body share their parts (`let b = #(a, a)` holds `a` once)
+    and nest as deep as the body is long (`let b = [a]` repeated): written out as a tree the first has 2^n leaves - hover and
+    plain completion, which renders every local in scope, never answer at n = 40 - and the second overflows the worker's stack at
+    n = 3000, which takes the process down. The recursive walk of the type for display therefore asks a budget before every
+    descent: a method of the formatter that compares a depth counter and a size counter with constants; the depth is counted up
+    around the descent and down after it, the size grows with every piece written."""
+    TF = "ide::ty::display::TyFormatter"
+    root = "<ide::ty::Ty as ide::ty::display::TyDisplay>::ty_fmt"
+    if root not in F.fns:
+        res.anchor_missing(rule, root)
+        return
+    from lib import effects as EF
+    # the budget: a bool method of the formatter that compares fields of it with constants
+    budget = None
+    for p_, f in sorted(F.fns.items()):
+        if not p_.startswith(TF + "::") or not f.blocks or f.d.get("output") != "bool":
+            continue
+        fields = set()
+        for b, i, s_ in f.stmts():
+            rv = s_.get("rv") or {}
+            if rv.get("k") == "bin" and rv["op"] in ("Ge", "Gt", "Lt", "Le"):
+                sides = [rv["a"], rv["b"]]
+                if any(isinstance(x.get("k"), dict) and "bits" in x["k"] for x in sides if isinstance(x, dict)):
+                    for x in sides:
+                        pl = x.get("cp") or x.get("mv") if isinstance(x, dict) else None
+                        if pl:
+                            o = FL.Defs(f).origin_place(pl)
+                            names = [e.get("n") for e in (o.get("proj") or []) if isinstance(e, dict) and "f" in e] if o.get("k") == "field" else \
+                                    [e.get("n") for e in pl["p"] if isinstance(e, dict) and "f" in e]
+                            fields |= set(n_ for n_ in names if n_)
+        if len(fields) >= 1:
+            budget = (p_, fields)
+    if budget is None:
+        res.ob(rule, "display/budget", "the formatter of types has a budget test (depth and size against constants)", False, where="crates/ide/src/ty/display.rs",
+               how="no bool method of TyFormatter compares a field with a constant: a type is written out whole, however large")
+        return
+    bp, bfields = budget
+    # the recursive cycle of the display
+    cg = F.callgraph()
+    scc = {root}
+    frontier = [root]
+    reach = {}
+
+    def reaches(a):
+        if a in reach:
+            return reach[a]
+        seen, st = set(), [a]
+        while st:
+            x = st.pop()
+            for y in cg.get(x, ()):
+                if y not in seen and y.startswith(("ide::ty::", "<ide::ty::")):
+                    seen.add(y)
+                    st.append(y)
+        reach[a] = seen
+        return seen
+    members = {m for m in reaches(root) if root in reaches(m)} | {root}
+    # every cycle passes a gated call: remove the gated call edges and look for a remaining cycle
+    edges = {}
+    gated_sites = 0
+    counted = {}
+    for m in members:
+        f = F.fns.get(m)
+        if f is None or not f.blocks:
+            continue
+        d = FL.Defs(f)
+        for b, t in f.calls():
+            c = callee(t) or ""
+            tgts = [c] if c in members else [x for x in cg.get(m, ()) if x in members and (callee_def(t) or "").rsplit("::", 1)[-1] == x.rsplit("::", 1)[-1]] if c not in F.fns else []
+            if not tgts:
+                continue
+            gs = FL.gates(F, f, [b], d)
+            ok = any((g.get("callee") or "") == bp and g.get("allowed") in ([False], [0]) for g in gs)
+            if ok:
+                gated_sites += 1
+                # what is counted around this descent
+                for e in EF.field_effects(f, TF):
+                    if e["how"] == "assign" and e["field"] in bfields:
+                        counted.setdefault(e["field"], set()).add(m)
+            else:
+                for x in tgts:
+                    edges.setdefault(m, set()).add(x)
+    # cycle detection over the ungated edges
+    color = {}
+
+    def dfs(u):
+        color[u] = 1
+        for v in edges.get(u, ()):
+            if color.get(v) == 1 or (color.get(v) is None and dfs(v)):
+                return True
+        color[u] = 2
+        return False
+    cyc = any(color.get(m) is None and dfs(m) for m in sorted(members))
+    res.ob(rule, "display/descent-budgeted", "every cycle of the recursive walk that writes a type out passes a descent that sits behind the refusing answer of "
+           "the formatter's budget test", gated_sites > 0 and not cyc, where=F.fns[root].loc(),
+           how="%d function(s) on the cycle, %d gated descent(s), no cycle round them" % (len(members), gated_sites) if gated_sites and not cyc else
+           "a cycle of %s avoids the budget test %s" % (sorted(FL.short(m) for m in members), FL.short(bp)))
+    # the two counters: one moves with the descent (depth), one grows where text is written (size)
+    writers = {}
+    for p_, f in sorted(F.fns.items()):
+        if not p_.startswith(("ide::ty::display::", "<ide::ty::")) or not f.blocks:
+            continue
+        for e in EF.field_effects(f, TF):
+            if e["how"] == "assign" and e["field"] in bfields:
+                writers.setdefault(e["field"], set()).add(p_)
+    depthlike = [fl for fl, ws in writers.items() if ws & members]
+    sizelike = [fl for fl, ws in writers.items() if any(any(FL.short(callee(t) or callee_def(t) or "").endswith("write_str") for _b, t in F.fns[w].calls()) for w in ws)]
+    res.ob(rule, "display/budget-counts-depth-and-size", "the budget compares a counter that moves with the descent (depth: stack) and one that grows with the "
+           "text written (size: time and memory)", bool(depthlike) and bool(sizelike) and set(depthlike) != set(sizelike) or (len(depthlike) >= 1 and len(sizelike) >= 1 and depthlike != sizelike),
+           where=F.fns[bp].loc(), how="%s compares %s; moved around the descent: %s; grown where text is written: %s" % (FL.short(bp), sorted(bfields), depthlike, sizelike))
+
+
+REST_PASS = ("Iterator::collect", "IntoIterator::into_iter", "Iterator::by_ref", "Iterator::skip", "Iterator::peekable", "Iterator::rev", "Iterator::fuse",
+             "Vec::from_iter", "FromIterator::from_iter", "Iterator::cloned", "Iterator::copied", "Deref::deref", "DerefMut::deref_mut", "Clone::clone",
+             "Vec::split_off", "slice::to_vec", "[T]::to_vec", "Vec::drain", "Vec::as_slice")
+
+
+def recursion_follows_nesting_not_length(F, res, rule="Q17"):
+    """Q17: the depth of every recursion is the nesting of the input, which the parser bounds (C02 P5), never the length of a list
+    of siblings. A function on a recursive cycle that has started to consume a sequence (it called `next()` on an iterator, or split
+    the head off a slice) and hands the *rest* to a call into the cycle - `self.infer_stmts(stmts.collect())` for what follows a
+    `use`, `f(&xs[1..])`, `f(tail)` after `split_first` - recurses once per element: 3000 `use <- x` lines in one body overflow the
+    stack of the worker thread that infers it, and a stack overflow aborts the process."""
+    cg = F.callgraph()
+    ide = [p for p in sorted(F.fns) if p.startswith(("ide::", "<ide::")) and F.fns[p].blocks]
+    memo = {}
+
+    def reach(a):
+        if a in memo:
+            return memo[a]
+        seen, st = set(), [a]
+        while st:
+            x = st.pop()
+            for y in cg.get(x, ()):
+                if y not in seen and y.startswith(("ide::", "<ide::")):
+                    seen.add(y)
+                    st.append(y)
+        memo[a] = seen
+        return seen
+    n, bad = 0, []
+    for p_ in ide:
+        if "{closure" in p_:
+            continue
+        r = reach(p_)
+        if p_ not in r:
+            continue
+        f = F.fns[p_]
+        d = FL.Defs(f)
+        # iterators / slices this function has started to consume: the receiver of a next() call, the subject of split_first / a [1..] index
+        started = {}
+        for b, t in f.calls():
+            c = FL.short(callee(t) or callee_def(t) or "")
+            last = c.rsplit("::", 1)[-1]
+            if last in ("next", "next_back", "split_first", "split_last", "split_at", "pop", "remove") and t["args"]:
+                o = d.origin_op(t["args"][0], through_calls=REST_PASS)
+                base = o
+                while base.get("k") == "field":
+                    base = base["base"]
+                key = FL.origin_key(base)
+                started.setdefault(key, []).append(b)
+            if last == "index" and len(t["args"]) > 1 and "RangeFrom" in (f.local_ty(FL.op_local_(t["args"][1]) or -1) or ""):
+                o = d.origin_op(t["args"][0], through_calls=REST_PASS)
+                started.setdefault(FL.origin_key(o), []).append(b)
+        for b, t in f.calls():
+            c = callee(t) or ""
+            if c not in r or p_ not in reach(c) and c != p_:
+                continue
+            n += 1
+            for a in t["args"][1:] if len(t["args"]) > 1 else t["args"]:
+                if "k" in a:
+                    continue
+                o = d.origin_op(a, through_calls=REST_PASS)
+                via = o.get("via") or []
+                base = o
+                while base.get("k") == "field":
+                    base = base["base"]
+                key = FL.origin_key(base)
+                # the rest of a sequence this function consumed the head of: the consumption can come before the call
+                if key in started and any(sb == b or f.can_reach(sb, [b]) for sb in started[key]) and base.get("k") in ("arg", "call", "rv", "agg", "multi"):
+                    # results of split_first & co.: the tail is a field of the call's answer, also counts
+                    bad.append("%s hands the rest of a sequence it has begun to consume to %s (line %s)" % (FL.short(p_), FL.short(c), t["ln"]))
+    res.floor("calls into recursive cycles of crate ide", n, 20)
+    res.ob(rule, "recursion/not-over-the-rest-of-a-list", "no function of a recursive cycle hands the remainder of a sequence it has begun to consume back into the cycle "
+           "(recursion depth follows the nesting of the source, which is bounded, not the number of statements or items)", not bad,
+           where="crates/ide/src", how="%d recursive call sites, none on a remainder" % n if not bad else "; ".join(sorted(set(bad))[:3]))
 
 
 TREE = {
